@@ -261,6 +261,29 @@ def run_case(case, R):
             with numpy.errstate(all="ignore"):
                 wsm = {e: sc * ca[e] for e in keys}
                 wsa = {e: (ca[e] + sc if e == (0, 0) else ca[e] + numpy.zeros((), dtype=db)) for e in keys}
+            # differences with an edge value / concatenations with a number of the other dtype
+            if da != "?" and db != "?":
+                with numpy.errstate(all="ignore"):
+                    wdp = {e: numpy.diff(ca[e], prepend=(sc if e == (0, 0) else numpy.zeros((), dtype=db))) for e in keys}
+                    wda = {e: numpy.diff(ca[e], append=(sc if e == (0, 0) else numpy.zeros((), dtype=db))) for e in keys}
+                    try:
+                        wed = {e: numpy.ediff1d(ca[e], to_end=(numpy.array([sc]) if e == (0, 0) else numpy.zeros(1, dtype=db))) for e in keys}
+                    except TypeError:
+                        wed = None
+                twice(R, "diff", f"diff({da} poly, prepend=numpy.{db}(2))", lambda: numpoly.diff(a, prepend=sc), lambda got: compare_cols(got, wdp, wdp[(0, 0)].dtype, None), tags + ["edge_value"])
+                twice(R, "diff", f"diff({da} poly, append=numpy.{db}(2))", lambda: numpoly.diff(a, append=sc), lambda got: compare_cols(got, wda, wda[(0, 0)].dtype, None), tags + ["edge_value"])
+                twice(R, "diff", f"diff({da} poly, prepend={db} poly)", lambda: numpoly.diff(a, prepend=b[:1]),
+                      lambda got: compare_cols(got, {e: numpy.diff(ca[e], prepend=cb[e][:1]) for e in keys}, rdt, None), tags + ["edge_value"])
+                if wed is not None:
+                    twice(R, "ediff1d", f"ediff1d({da} poly, to_end=numpy.{db}(2))", lambda: numpoly.ediff1d(a, to_end=sc), lambda got: compare_cols(got, wed, wed[(0, 0)].dtype, None), tags + ["edge_value"])
+                try:   # numpy.ediff1d casts the edge values to the dtype of the array (same-kind casts only)
+                    with numpy.errstate(all="ignore"):
+                        web = {e: numpy.ediff1d(ca[e], to_begin=cb[e][:2]) for e in keys}
+                except TypeError:
+                    web = None
+                if web is not None:
+                    twice(R, "ediff1d", f"ediff1d({da} poly, to_begin={db} poly)", lambda: numpoly.ediff1d(a, to_begin=b[:2]),
+                          lambda got: compare_cols(got, web, web[(0, 0)].dtype, None), tags + ["edge_value"])
             twice(R, "multiply", f"numpy.{db}(2) * {da} poly", lambda: sc * a, lambda got: compare_cols(got, wsm, wsm[(0, 0)].dtype, None), tags + ["numpy_scalar_left"])
             twice(R, "add", f"{da} poly + numpy.{db}(2)", lambda: a + sc, lambda got: compare_cols(got, wsa, wsa[(0, 0)].dtype, None), tags + ["numpy_scalar_right"])
         with numpy.errstate(all="ignore"):
